@@ -87,6 +87,11 @@ func c18Letters(limit int) []c18Letter {
 		c18Letter{fmt.Sprintf("COPY%v", copyB), burst(copyB, 53)},
 		c18Letter{fmt.Sprintf("Parse+Bind%v+Execute+Sync", bindA), batch(bindA, 56)},
 		c18Letter{fmt.Sprintf("Parse+Bind%v+Execute+Sync", bindB), batch(bindB, 57)},
+		// the names whose values were retained are released / replaced: what was handed out stays untouched
+		c18Letter{"Close(portal keep)+Sync", pgproto.Cat(pgproto.Close('P', "keep"), pgproto.Sync())},
+		c18Letter{"Close(statement keep)+Sync", pgproto.Cat(pgproto.Close('S', "keep"), pgproto.Sync())},
+		c18Letter{"Close(portal t)+Close(statement t)+Sync", pgproto.Cat(pgproto.Close('P', "t"), pgproto.Close('S', "t"), pgproto.Sync())},
+		c18Letter{"Parse+Bind replacing statement / portal keep", pgproto.Cat(pgproto.Parse("keep", "later"), pgproto.Bind("keep", "keep", nil, [][]byte{filler(24, 61)}, nil), pgproto.Sync())},
 	)
 	return ls
 }
@@ -291,7 +296,7 @@ func init() {
 		ID:          "C18",
 		Level:       "model_checking",
 		Technique:   "exhaustive enumeration of later-traffic histories over message sizes around the 4 KiB allocation granule and the message limit, on a real server whose callbacks retain (without copying) everything they were handed next to a private clone; invariant checked after every message",
-		Rule:        "first phase retains startup parameters (validator + parser), database / user / password, a Query text, a Parse text and two Bind values; then every history of length <= d over 17 (limit 8192) / 16 (limit 1024, below the 4 KiB allocation granule) letters: Query bodies around the granule and the limit, oversized-and-skipped messages of several sizes, two COPY bursts (incl. an oversized CopyData), two Bind batches",
+		Rule:        "first phase retains startup parameters (validator + parser), database / user / password, a Query text, a Parse text and two Bind values; then every history of length <= d over 21 (limit 8192) / 20 (limit 1024, below the 4 KiB allocation granule) letters: Query bodies around the granule and the limit, oversized-and-skipped messages of several sizes, two COPY bursts (incl. an oversized CopyData), two Bind batches, Close of the portals / statements whose values were retained, re-definition of those names",
 		Assumptions: []string{"CopyData payload views are not retained: the statement lists query texts, parameter values, client parameters and passwords"},
 		Enumerate:   c18Enumerate,
 		Bounds: func(tier string) map[string]any {
